@@ -3163,7 +3163,7 @@ class Wallet(object):
         :return int: Number of new UTXO's added
         """
 
-        _, account_id, acckey = self._get_account_defaults('', account_id, key_id)
+        _, account_id, acckey = self._get_account_defaults(None, account_id, key_id)
 
         single_key = None
         if key_id:
